@@ -2350,6 +2350,17 @@ PREFIX (_translate) (region_type_t *region, int x, int y)
 		pixman_set_extents (region);
 	    }
 	}
+
+	/* Clamping can make vertically adjacent bands identical in x (and
+	 * boxes of one band touch): bring the rectangles back into
+	 * canonical form.
+	 */
+	if (region->data && region->data->numRects > 1)
+	{
+	    /* empty extents tell validate() that the list is unchecked */
+	    region->extents.x1 = region->extents.x2 = 0;
+	    validate (region);
+	}
     }
 
     GOOD (region);
